@@ -58,16 +58,6 @@ def denote : OpExpr → Mat
   | b2u e => Mat.block e.denote e.denote.transpose
   | normalize e => rowNormalized e.denote
 
-/-- every regularisation parameter of a Normalizer / Laplacian leaf is non-negative
-    (the code tests `regularization > 0`: a negative value enters the degrees but not the product) -/
-def RegNonneg : OpExpr → Bool
-  | normalizer _ reg => decide (0 ≤ reg)
-  | laplacian _ reg _ _ => decide (0 ≤ reg)
-  | neg e | addCsr e _ | subCsr e _ | mul e _ | transpose e | leftDot _ e | rightDot e _ | astype e
-  | d2u e | b2d e | b2u e | normalize e => e.RegNonneg
-  | add e f | sub e f => e.RegNonneg && f.RegNonneg
-  | _ => true
-
 end OpExpr
 
 /-! ### static typing of operator expressions: which class Python returns, which shape, which refusal -/
